@@ -132,7 +132,7 @@ func init() {
 			"only from GetRevealValue / GetCommitmentFromRevealValue must let exactly the committed chain through, and along the accepted chain reveal(op_i) maps to the " +
 			"commitment the parser reports for its predecessor. distinct_nontrivial = distinct chain histories + distinct (key type, tags, nonce, algorithm) tuples",
 		Cases: func(master uint64, tier string) []Case {
-			n := 1500
+			n := 4000
 			if tier == "thorough" {
 				n = 250000
 			}
